@@ -103,10 +103,17 @@ def run(tier, seed, replay=None):
                 x = x0_ + 1e-13 * float(x0_.norm()) * (lambda t: t * (1.0 / float(t.norm())))(mk([1] * (d + 1)))
             else:
                 tiny = False
+        tall = i in (5, 25) or (tier != "quick" and i % 40 == 5)
+        if tall:                 # a long mode next to a small rank, the two columns of the first core nearly parallel (sigma_2 / sigma_1 ~ 4e-7): the gauges must still be orthonormal
+            d = 3; ttm = False; M = None; N = [rng.choice([96, 200]), 3, 3]; tiny = False
+            mk = lambda RR: solverkit.rand_tt_float(rng, N, RR, dt)
+            b_ = torch.tensor([[rng.gauss(0, 1)] for _ in range(N[0])], dtype=dt); p_ = torch.tensor([[rng.gauss(0, 1)] for _ in range(N[0])], dtype=dt)
+            rest_ = mk([1, 2, 2, 1])
+            x = torchtt.TT([torch.cat([b_, b_ + 4e-7 * p_], 1).reshape(1, N[0], 2), rest_.cores[1].clone(), rest_.cores[2].clone()])
         R = [int(r) for r in x.R]
         z = mk(solverkit.ranks(rng, d, rng.choice([1, 2, 4]))); w = mk(solverkit.ranks(rng, d, rng.choice([1, 3])))
         desc = {"ttm": ttm, "N": N, "M": M, "R_x": R, "R_z": [int(r) for r in z.R], "interior_rank_1": any(r == 1 for r in R[1:-1])}
-        key = ("ttm" if ttm else "tt") + (" interior-rank-1" if desc["interior_rank_1"] else "") + (" tiny-singular-value" if tiny else "")
+        key = ("ttm" if ttm else "tt") + (" interior-rank-1" if desc["interior_rank_1"] else "") + (" tiny-singular-value" if tiny else "") + (" tall-ill-conditioned-core" if tall else "")
         dist[key] = dist.get(key, 0) + 1
         if i % 12 == 0 and len(samples) < 5: samples.append(desc)
         snaps = {"x": history.Snap(x), "z": history.Snap(z), "w": history.Snap(w)}
@@ -214,6 +221,8 @@ def run(tier, seed, replay=None):
                 else: n_tangent += 1
         except Exception as ex:
             V.fail("tangent correspondence: the model could not be evaluated", {"exc": str(ex)[:300]}, failing_input=False)
+    import qrcontract
+    qrcontract.run(V, random.Random(seed + 23), torch, torchtt, tier, dist, "tangent-space projector")
     nviol = V.finish()
     cov = proofcheck.coverage(PID, obl, evaluations=n + nt, distinct_nontrivial=len(dist),
         rule=("base points x of order 2..5 with achievable (rounded) rank profiles incl. interior ranks equal to 1, TT tensors and TT matrices, tensors z, w of arbitrary ranks; "
